@@ -524,6 +524,26 @@ func (w *SrvWorld) closeServer() {
 
 func (w *SrvWorld) finish() {
 	w.closeServer()
+	// "once the server has been closed nothing remains": judged before the harness closes its
+	// own endpoints (a client that hangs up would make the server clean up after all)
+	w.K.At(w.K.Now()+5e9, "after-server-close", w.afterServerClose)
+}
+
+func (w *SrvWorld) afterServerClose() {
+	if w.K.Parked() > 0 || w.LibPending() > 0 {
+		w.finalTries++
+		if w.finalTries < 2000 {
+			w.K.At(w.K.Now()+30e9, "after-server-close", w.afterServerClose)
+			return
+		}
+	}
+	for _, s := range w.Net.OpenSockets() {
+		switch s.Role {
+		case "relay", "relay-out", "listener", "listener-conn", "relay-conn":
+			w.K.Violate(&Violation{Property: "C15", Class: "open-after-server-close", Key: kv("kind", s.Kind+":"+s.Role),
+				Detail: "socket " + s.Kind + " " + s.Role + " " + s.Addr + " remote " + s.Remote + " is still open 5 s after Server.Close returned"})
+		}
+	}
 	// close every harness-owned endpoint so that only library leaks remain
 	for _, c := range w.Clients {
 		if c.sock != nil {
@@ -540,6 +560,7 @@ func (w *SrvWorld) finish() {
 		ps := p.sock
 		w.lib("close-peer", func() { _ = ps.Close() })
 	}
+	w.finalTries = 0
 	w.K.At(w.K.Now()+5e9, "final", w.final)
 }
 
